@@ -305,7 +305,7 @@ theorem coherent_of_deletes {s s' : FSA V L} {x : V} (hs : s.Coherent) (H : Dele
   constructor
   · exact H.nodup
   · intro a; rw [H.mem_graph, H.mem_out, hs.verts]
-  · intro a; rw [H.mem_inn, H.mem_out]; exact fun h => ⟨h.1, hs.innVerts a h.2⟩
+  · intro a; rw [H.mem_inn, H.mem_out, hs.innVerts a]
   · intro a b; rw [H.og, H.ig]; split
     · rfl
     · exact hs.io a b
